@@ -106,20 +106,52 @@ def classify_internal(files, tb, err=None):
     texts = list(files.values())
     if tb['type'] == 'ValueError' and tb['message'] in ('embedded null byte', 'embedded null character') \
             and any('\x00' in t for t in texts):
-        # KF-C18-4: a NUL character in an argument that becomes a file name / program argument reaches the OS
-        # interface unchecked.  Model: the text contains NUL and Python reports exactly that.
+        # KF-C18-4: a NUL character in an argument that becomes a file name / program argument / environment value
+        # reaches the OS interface unchecked.  Model: the text contains NUL and the exception is the one (type and
+        # message) with which CPython's OS interface refuses a string that contains NUL.
         return 'KF-C18-4'
     m = re.search(r'Name not in symbol table: "([^"]+)"', err or '')
     if m and inner == ('exactly_lib/util/symbol_table.py', 'lookup') and tb['type'] == 'KeyError' \
-            and 'PhaseStepFailureException' in err and (err.startswith('In [cleanup]')):
-        # KF-C18-5: an instruction of an earlier phase fails (HARD_ERROR / FAIL), the `def` after it is never
-        # executed, [cleanup] is run all the same and one of its instructions refers to that symbol.
-        # Model: the report is about [cleanup], it is a chained traceback that starts with the phase failure, and
-        # the missing name is defined by a `def` of the case.
-        if re.search(r'(^|\n)\s*def\s+\S+\s+%s\s*=' % re.escape(m.group(1)), '\n'.join(texts)):
-            return 'KF-C18-5'
-        return None
+            and err.startswith('In [cleanup]'):
+        return 'KF-C18-5' if _is_kf5(files, m.group(1)) else None
     return None
+
+
+def _is_kf5(files, name):
+    """KF-C18-5: an instruction of an earlier phase fails (HARD_ERROR / FAIL), the `def`s after it are never executed,
+    [cleanup] is run all the same and one of its instructions refers to such a symbol.
+    Model (the report is about [cleanup] - checked by the caller): the same case *without the contents of [cleanup]* ends in a failure (not an error of exit code 65,
+    not INTERNAL_ERROR) of a phase before [cleanup], and the missing name is defined by a `def` that is executed
+    after the place of that failure (later phase, or same phase and later line) and before [cleanup]."""
+    text = files['t.case']
+    lines = R.file_lines(text)
+    phases = R.phase_of_lines(text)
+    order = R.PHASE_ORDER
+    def_re = re.compile(r'^\s*def\s+\S+\s+%s\s*=' % re.escape(name))
+    inc_re = re.compile(r'^\s*including\s')
+    inc_defines = any(def_re.match(l) for f, t in files.items() if f != 't.case' for l in R.file_lines(t))
+    def_places = [(order.index(ph), i + 1) for i, (l, ph) in enumerate(zip(lines, phases))
+                  if ph not in (None, 'cleanup') and (def_re.match(l) or (inc_defines and inc_re.match(l)))]
+    if not def_places:
+        return False
+    without = dict(files)
+    without['t.case'] = '\n'.join('' if ph == 'cleanup' else l for l, ph in zip(lines, phases)) + '\n'
+    obs = observe(without)
+    ident = ident_of(obs)
+    if ident not in ('HARD_ERROR', 'FAIL', 'XFAIL') or obs['exception'] or obs['timed_out']:
+        return False
+    rep = R.parse_report(obs['err'])
+    if rep['phase'] not in order or rep['phase'] == 'cleanup':
+        return False
+    if rep['actor'] is not None or not rep['chain']:
+        fail_place = (order.index(rep['phase']), float('inf'))  # the act phase as a whole
+    else:
+        first = rep['chain'][0]  # the line of t.case (an `including` line when the failure is in an included file)
+        fail_place = (order.index(rep['phase']), first[1])
+        if len(rep['chain']) > 1:
+            # failure inside the included file: the definitions of that file after it are skipped too
+            return any(p >= fail_place for p in def_places)
+    return any(p > fail_place for p in def_places)
 
 
 # ---- the generic oracle -------------------------------------------------------------------------------------------------
@@ -206,18 +238,18 @@ def _strip_quotes(tok):
 
 
 def targeted_demand(doc, f, info):
-    """-> None (no demand beyond the generic oracle) | dict(must_reject=True, kf=..., why=...)"""
+    """-> None (no demand beyond the generic oracle) | dict(why=..., idents=accepted identifiers (optional))"""
     elems = doc['elems'] if f == 0 else doc['inc']
     if info.get('elem') is None:
         return None
     elem = elems[info['elem']]
     if info['op'] == 'badhdr':
-        return {'why': 'the line %r begins with `[` but is not a phase header' % info['token'], 'kf': None,
+        return {'why': 'the line %r begins with `[` but is not a phase header' % info['token'],
                 'idents': ('SYNTAX_ERROR',)}
     if elem['name'] in M.NOT_INSTRUCTION_ELEMENTS or elem['ph'] == 'act':
         return None
     if info['op'] == 'badinstr':
-        return {'why': 'there is no instruction %r' % info['token'], 'kf': None, 'idents': ('SYNTAX_ERROR',)}
+        return {'why': 'there is no instruction %r' % info['token'], 'idents': ('SYNTAX_ERROR',)}
     if elem['name'] == 'def':
         return None
     if info['op'] == 'wrongref':
@@ -232,7 +264,7 @@ def targeted_demand(doc, f, info):
         if old_type in ('string', 'list', 'path') and new_type == 'text-source':
             return None  # the grammar writes @[S]@ also where a TEXT-SOURCE is expected
         return {'why': 'reference to %s (%s) where a %s is required' % (info['new_name'], new_type or 'undefined',
-                                                                        old_type), 'kf': None}
+                                                                        old_type)}
     if info['op'] != 'badval':
         return None
     kind, eff = info['kind'], info['effective']
@@ -244,24 +276,22 @@ def targeted_demand(doc, f, info):
         c = R.int_class(eff)
         if c == 'int':
             return None
-        kf = 'KF-C18-1' if c.startswith('raises:') and c[7:] not in R.CAUGHT_BY_DOCUMENTED_EVALUATION else None
-        return {'why': 'INTEGER %r: %s' % (eff, c), 'kf': kf, 'exc': c[7:] if kf else None}
+        return {'why': 'INTEGER %r: %s' % (eff, c)}
     if kind == 'range':
-        bad, exc = R.range_invalid(eff)
-        if not bad:
+        if not R.range_invalid(eff):
             return None
-        return {'why': 'LINE-NUMBER-RANGE %r is ill-formed' % eff, 'kf': 'KF-C18-1' if exc else None, 'exc': exc}
+        return {'why': 'LINE-NUMBER-RANGE %r is ill-formed' % eff}
     if kind == 'regex':
         if not R.regex_invalid(eff) or not R.regex_invalid(eff, True):
             return None
-        return {'why': 'REGEX %r does not compile' % eff, 'kf': None}
+        return {'why': 'REGEX %r does not compile' % eff}
     if kind == 'repl':
         if info['prev_kind'] != 'regex' or '@[' in info['prev']:
             return None
         rx = _strip_quotes(info['prev'])
         if not R.template_invalid(eff, rx):
             return None
-        return {'why': 'replacement %r is refused by Python for the pattern %r' % (eff, rx), 'kf': 'KF-C18-2'}
+        return {'why': 'replacement %r is refused by Python for the pattern %r' % (eff, rx)}
     return None
 
 
@@ -292,11 +322,8 @@ def strict_problem(doc, f, info, demand, files, obs, parent_obs):
     if ident == 'INTERNAL_ERROR':
         return None  # the generic oracle has reported / classified it
     if ident in IDENTS_COMPLETE or ident == 'SKIPPED' or 'idents' in demand:
-        known = None
-        if demand.get('kf') == 'KF-C18-2' and (obs['exit'], ident) == (parent_obs['exit'], p_ident):
-            known = 'KF-C18-2'  # never validated, and the transformer was applied to no line: behaves as the parent
         return ('targeted-mistake-accepted/%s/%s' % (kind, ident),
-                dict(detail, what='the mistake is silently accepted'), known)
+                dict(detail, what='the mistake is silently accepted'), None)
     return None
 
 
